@@ -130,6 +130,7 @@ use crate::job::Pid;
 use crate::job::ProcessState;
 use crate::path::Path;
 use crate::path::PathBuf;
+use crate::path::Component;
 use crate::semantics::ExitStatus;
 use crate::str::UnixStr;
 use crate::str::UnixString;
@@ -918,7 +919,20 @@ impl Chdir for VirtualSystem {
         let inode = self.resolve_existing_file(AT_FDCWD, path, /* follow links */ true)?;
         if matches!(&inode.borrow().body, FileBody::Directory { .. }) {
             let mut process = self.current_process_mut();
-            let new_path = process.cwd.join(path);
+            // Keep the working directory canonical, as a real system does:
+            // drop `.` components and resolve `..` components.
+            let mut new_path = PathBuf::new();
+            for component in process.cwd.join(path).components() {
+                match component {
+                    Component::CurDir => (),
+                    Component::ParentDir => {
+                        new_path.pop();
+                    }
+                    Component::RootDir | Component::Normal(_) => {
+                        new_path.push(component.as_unix_str())
+                    }
+                }
+            }
             process.chdir(new_path);
             Ok(())
         } else {
